@@ -91,6 +91,12 @@ class API:
         self.functions[function.id] = function
 
     def add_enum(self, enum: Enum) -> None:
+        previous_definition = self.enums.get(enum.id)
+        if previous_definition is not None and previous_definition is not enum:
+            # An enum that is defined again replaces the earlier definition, together with the instances only that one had
+            for instance in previous_definition.instances:
+                if self.enum_instances.get(instance.id) is instance:
+                    del self.enum_instances[instance.id]
         self.enums[enum.id] = enum
 
     def add_results(self, results: list[Result]) -> None:
@@ -175,6 +181,8 @@ class Module:
         self.global_functions.append(function)
 
     def add_enum(self, enum: Enum) -> None:
+        # A later definition of the same name replaces the earlier one
+        self.enums = [enum_ for enum_ in self.enums if enum_.id != enum.id]
         self.enums.append(enum)
 
 
